@@ -100,6 +100,23 @@ Proof.
   - rewrite Gx. cbn [snd]. rewrite (sdead_sget _ _ D). reflexivity.
 Qed.
 
+Lemma dealias_appendrange_self s t x i n : sdead s t = true -> x <> t ->
+  spec_run s [OCopyNew t x; OAppendRange x t i n; ODel t] = snd (spec_step s (OAppendRange x x i n)).
+Proof.
+  intros D NE. cbn [spec_run spec_step].
+  destruct (sget s x) as [[k l]|] eqn:Gx; cbn [snd].
+  - rewrite D. cbn [andb].
+    destruct (copyable k) eqn:CP; cbn [snd].
+    + rewrite sget_scratch by auto. rewrite Gx, (sget_scratch_t s t _ D).
+      destruct (is_array k && is_array k && (i + n <=? length l)%nat) eqn:CA; cbn [snd].
+      * rewrite (sget_sset_other _ x t) by auto. rewrite (sget_scratch_t s t _ D). cbn [snd].
+        apply via_scratch; auto.
+      * rewrite (sget_scratch_t s t _ D). cbn [snd]. apply scratch_undo; auto.
+    + rewrite Gx, (sdead_sget _ _ D). cbn [snd]. rewrite (sdead_sget _ _ D). cbn [snd].
+      destruct k; cbn in CP; try discriminate; reflexivity.
+  - rewrite Gx. cbn [snd]. rewrite (sdead_sget _ _ D). reflexivity.
+Qed.
+
 (* the spec gives an operation with aliased arguments the meaning of its de-aliased form *)
 Theorem dealias_spec s t o : sdead s t = true -> ~ In t (mentions o) ->
   spec_run s (dealias s t o) = snd (spec_step s o).
@@ -116,6 +133,8 @@ Proof.
   - (* ORemAll *) destruct (Nat.eqb_spec x y) as [->|NE]; [|reflexivity].
     apply dealias_remall_self; auto. intro Q. apply NM. cbn [mentions]. left. auto.
   - (* OResize *) cbn [spec_run spec_step]. rewrite sarg_val_dealias. reflexivity.
+  - (* OAppendRange *) destruct (Nat.eqb_spec x y) as [->|NE]; [|reflexivity].
+    apply dealias_appendrange_self; auto. intro Q. apply NM. cbn [mentions]. left. auto.
 Qed.
 
 (* ---- histories ---- *)
